@@ -376,3 +376,58 @@ func GenRounds(prop string, r *sim.Rand, tier string) sim.Script {
 	}
 	return s
 }
+
+// GenSched generates a C16 script: a trie prepared sequentially, then 2-4 tasks on it.
+func GenSched(r *sim.Rand, tier string) sim.Script {
+	s := &TreeScript{Prop: "C16"}
+	s.Store = []string{"mem", "lvlmem", "mem", "lvlp"}[r.Intn(4)]
+	s.Cache = "own"
+	s.Ver = int64(1 + r.Intn(20))
+	profile := []string{"tiny", "dense", "tiny", "fixed"}[r.Intn(4)]
+	pool := pathPool(r, profile, 2+r.Intn(3))
+	n := 0
+	for i := r.Intn(5); i > 0; i-- {
+		n++
+		s.Ops = append(s.Ops, Op{K: "ins", P: pool[r.Intn(len(pool))], V: []byte(fmt.Sprintf("s%d", n))})
+	}
+	lossy := len(s.Ops) >= 2 && r.Chance(1, 5)
+	if lossy {
+		s.Ops = append(s.Ops, Op{K: "lose", P: "norepair", S: []int{r.Intn(1000)}, N: int64(r.Intn(100))})
+	}
+	nt := 2 + r.Intn(3)
+	for t := 0; t < nt; t++ {
+		var ops []Op
+		for i := 2 + r.Intn(5); i > 0; i-- {
+			p := pool[r.Intn(len(pool))]
+			w := []int{30, 18, 25, 8, 5, 4, 3, 4, 3}
+			if lossy {
+				w = []int{0, 0, 40, 10, 5, 15, 10, 0, 3}
+			}
+			switch r.Weighted(w) {
+			case 0:
+				n++
+				ops = append(ops, Op{K: "ins", P: p, V: []byte(fmt.Sprintf("t%d", n))})
+			case 1:
+				ops = append(ops, Op{K: "del", P: p})
+			case 2:
+				ops = append(ops, Op{K: "get", P: p})
+			case 3:
+				ops = append(ops, Op{K: "iter"})
+			case 4:
+				ops = append(ops, Op{K: "changes"})
+			case 5:
+				ops = append(ops, Op{K: "missing"})
+			case 6:
+				ops = append(ops, Op{K: "hasmissing"})
+			case 7:
+				ops = append(ops, Op{K: "save"})
+			case 8:
+				ops = append(ops, Op{K: "root"})
+			}
+		}
+		s.Tasks = append(s.Tasks, ops)
+	}
+	s.Strategy = []string{"rw", "rw", "pct", "rub"}[r.Intn(4)]
+	s.SchedSeed = r.U64()
+	return s
+}
